@@ -73,6 +73,19 @@ def expectedAssigns : List SField → List PAssign
       (f.name, f.start, f.shift, f.start + f.width,
         (if f.lenField = "" then f.shift else f.shift ++ [f.lenField]), k) :: expectedAssigns r
 
+/-- direct decoding of the layout: bind every length field, then read every decoded field from its
+columns, through the character-set decoder except for image bytes (no guards: conformant records are long enough by construction) -/
+def toParse (fs : List SField) : List PStmt :=
+  [PStmt.setType] ++
+  fs.flatMap (fun f =>
+    (match f.pk with
+     | some k => [PStmt.assign f.name ⟨f.start, f.shift⟩
+                    ⟨f.start + f.width, if f.lenField = "" then f.shift else f.shift ++ [f.lenField]⟩ k
+                    (f.conv != .image)]
+     | none => []) ++
+    -- a field that is the length of a later section is bound (under its own name) right after it is read
+    (if fs.any (fun g => g.lenField == f.name) then [PStmt.bind f.name f.name] else []))
+
 /-- the regenerated `Parse()` reads exactly the prescribed columns into the prescribed fields -/
 def ParseMatches (fs : List SField) (ps : List PStmt) : Bool :=
   assignsOf ps [] == expectedAssigns fs && !ps.contains .opaque
